@@ -1,4 +1,4 @@
-import RpycModel.Async.Lemmas
+import RpycModel.Async.Multi
 import RpycModel.Gen.Async
 /-
 C15 — asynchronous results: pending until the reply arrives or the expiry passes, whichever happens
@@ -8,34 +8,15 @@ request the waiting thread is itself serving; a synchronous request is an asynch
 configured timeout.
 
 Only property theorems and non-vacuity examples live here (namespace Rpyc.Props.C15); the model is
-RpycModel/Async/Model.lean, helper lemmas RpycModel/Async/Lemmas.lean.  All theorems hold for every
+RpycModel/Async/Model.lean, helper lemmas and the *definitional* lemmas (one-step unfoldings of the
+transcription: `timeout_finite_iff`, `timeout_deadline`, `infinite_never_expires`, `late_reply_discarded`,
+`reply_accepted_when_pending`, `callback_after_ready_runs_at_once`, `sync_is_async_plus_timeout`,
+`timed_is_async_with_timeout`, `each_request_own_deadline`) RpycModel/Async/Lemmas.lean.  All theorems hold for every
 sequence of events (no bound on length), every instant, every channel content and every timeout value
 (`none`, negative, zero, positive).  "Arrival" is the instant the reply is dispatched (`__call__` runs).
 -/
 namespace Rpyc.Props.C15
 open Rpyc Rpyc.Async
-
-/-! ### timeouts: `None` and negative values mean "no expiry" -/
-
-/-- a timeout is finite exactly when it is a number ≥ 0 (the code's `timeout is not None and timeout >= 0`) -/
-theorem timeout_finite_iff (now : Nat) (τ : Option Int) :
-    (Timeout.make now τ).finite = true ↔ ∃ t, τ = some t ∧ 0 ≤ t := by
-  cases τ with
-  | none => simp [Timeout.make]
-  | some t =>
-    by_cases h : 0 ≤ t
-    · simp [Timeout.make, h]
-    · simp [Timeout.make, h]
-
-/-- its deadline is the instant it was set plus the value; it has expired from that instant on, not before -/
-theorem timeout_deadline (now : Nat) (t : Int) (h : 0 ≤ t) (n : Nat) :
-    (Timeout.make now (some t)).expired n = decide (now + t.toNat ≤ n) := by
-  simp [Timeout.make, h, Timeout.expired]
-
-/-- without a (non-negative) timeout nothing ever expires -/
-theorem infinite_never_expires (now : Nat) (τ : Option Int) (h : (Timeout.make now τ).finite = false) (n : Nat) :
-    (Timeout.make now τ).expired n = false := by
-  simp [Timeout.expired, h]
 
 /-! ### (1) one final outcome -/
 
@@ -87,29 +68,6 @@ theorem expired_observations (w : World) (hx : status w = .expired) (evs : List 
   · simp [step, hd.ready]
   · simp [step, hd.error]
   · simp [step, hd.expired]
-
-/-- **A reply arriving after the expiry is discarded**: nothing changes but the connection's registry
-entry, and no callback runs — whether it is dispatched directly or taken from the channel by a serve. -/
-theorem late_reply_discarded (w : World) (hx : status w = .expired) (e : Bool) (v : Nat) :
-    (step w (.arrive e v)).1 = { w with live := false } := by
-  have hd := Dead.of_expired ((status_expired_iff w).mp hx)
-  simp only [step, dispatch]
-  split
-  · have h' : Dead w.ar w.cbLog w.readyAt { w with live := false } := hd
-    exact h'.call e v
-  · next hl => simp at hl; cases w; simp_all
-
-/-- **A reply arriving while pending decides for good**: ready with that value and flag, every stored
-callback run at this instant in registration order, the list emptied. -/
-theorem reply_accepted_when_pending (w : World) (hp : status w = .pending) (hl : w.live = true) (e : Bool) (v : Nat) :
-    (step w (.arrive e v)).1.ar.isReady = true
-      ∧ (step w (.arrive e v)).1.ar.isExc = some e ∧ (step w (.arrive e v)).1.ar.obj = some v
-      ∧ (step w (.arrive e v)).1.cbLog = w.cbLog ++ w.ar.callbacks.map (fun c => (c, w.now))
-      ∧ (step w (.arrive e v)).1.ar.callbacks = []
-      ∧ (step w (.arrive e v)).1.readyAt = some w.now
-      ∧ (step w (.arrive e v)).1.now = w.now := by
-  obtain ⟨h1, h2⟩ := (status_pending_iff w).mp hp
-  simp [step, dispatch, hl, call, AR.expired, h1, h2]
 
 /-- every state is exactly one of pending / ready / expired, and a pending result stays pending under an
 event unless a reply is dispatched in it or the clock reaches the deadline (nothing else decides) -/
@@ -182,10 +140,62 @@ theorem callbacks_each_once (t0 : Nat) (evs : List Ev) (hr : (runs (World.init t
   obtain ⟨_, t, _, h⟩ := (callbacks_once_in_order t0 evs).2 hr
   rw [h]; simp [List.map_map, Function.comp_def]
 
-/-- a callback registered on a ready result runs at once and only then -/
-theorem callback_after_ready_runs_at_once (w : World) (hr : w.ar.isReady = true) (c : Nat) :
-    (step w (.addCallback c)).1 = { w with cbLog := w.cbLog ++ [(c, w.now)] } := by
-  simp [step, addCallback, hr]
+/-! ### (2b) callbacks that raise or re-enter  (`callR`: `__call__` alone, any callbacks)
+
+The clause "every registered callback runs exactly once" is proved above for callbacks that return.  With a
+callback that *raises* the pinned code does not deliver it: the loop in `__call__` is left at the raising
+callback, the callbacks registered after it are never run (the registry entry is gone, `__call__` is not
+entered again) and the list is not cleared.  Stated here in full, with the counterexample and the part that
+does hold. -/
+
+/-- the clause at full strength, for one arrival: every registered callback runs -/
+def C15_callbacks_clause : Prop :=
+  ∀ (now : Nat) (cbs : List Cb) (e : Bool) (v : Nat), ∀ c ∈ cbs,
+    c.id ∈ (callR false now cbs e v).log.map Prod.fst
+
+/-- **false of the pinned code**: register a callback that raises and then a second one; when the reply arrives
+the second never runs, although the result is ready and the value published -/
+theorem C15_callbacks_counterexample :
+    (callR false 5 [⟨1, true, []⟩, ⟨2, false, []⟩] false 7)
+      = ⟨true, some false, some 7, [(1, 5)], [1, 2], true⟩ ∧ ¬ C15_callbacks_clause := by
+  refine ⟨by decide, ?_⟩
+  intro h
+  have := h 5 [⟨1, true, []⟩, ⟨2, false, []⟩] false 7 ⟨2, false, []⟩ (by simp)
+  revert this
+  decide
+
+/-- **what does hold** — callbacks that do not raise (they may re-enter: register more callbacks, read the
+value, issue requests): all run, in registration order, each followed at once by the callbacks it registered
+from inside; the list is cleared; nothing propagates. -/
+theorem C15_callbacks_partial (now : Nat) (cbs : List Cb) (e : Bool) (v : Nat)
+    (h : ∀ c ∈ cbs, c.raises = false) :
+    callR false now cbs e v
+      = ⟨true, some e, some v, cbs.flatMap (fun x => (x.id, now) :: x.adds.map (fun a => (a, now))), [], false⟩ := by
+  simp [callR, runCbs_noraise now cbs [] h]
+
+/-- **what survives a raising callback**: the result is ready and its value available; the callbacks up to
+and including the raising one have run (each with its re-entrant registrations), those after it have not; the
+whole list stays stored; the exception propagates into the serving thread. -/
+theorem raising_callback_outcome (now : Nat) (pre : List Cb) (c : Cb) (post : List Cb) (e : Bool) (v : Nat)
+    (hp : ∀ x ∈ pre, x.raises = false) (hc : c.raises = true) :
+    callR false now (pre ++ c :: post) e v
+      = ⟨true, some e, some v, (pre ++ [c]).flatMap (fun x => (x.id, now) :: x.adds.map (fun a => (a, now))),
+         (pre ++ c :: post).map Cb.id, true⟩ := by
+  simp [callR, runCbs_raiser now pre c post [] hp hc]
+
+/-- with plain callbacks `callR` is the `call` of the single-request worlds -/
+theorem callR_plain_is_call (w : World) (e : Bool) (v : Nat) (hx : w.ar.expired w.now = false) :
+    (call w e v).cbLog = w.cbLog ++ (callR false w.now (w.ar.callbacks.map (fun c => ⟨c, false, []⟩)) e v).log
+      ∧ (call w e v).ar.callbacks = (callR false w.now (w.ar.callbacks.map (fun c => ⟨c, false, []⟩)) e v).stored
+      ∧ (call w e v).ar.isReady = true := by
+  have h : ∀ c ∈ w.ar.callbacks.map (fun c => (⟨c, false, []⟩ : Cb)), c.raises = false := by
+    intro c hc; simp at hc; obtain ⟨_, _, rfl⟩ := hc; rfl
+  rw [C15_callbacks_partial _ _ _ _ h]
+  have hm : ∀ l : List Nat, List.map (fun c => (c, w.now)) l = List.flatMap (fun a => [(a, w.now)]) l := by
+    intro l; induction l with
+    | nil => rfl
+    | cons a t ih => simp [ih]
+  simp [call, hx, List.flatMap_map, hm]
 
 /-! ### (3) waiting raises the timeout error at the expiry instant -/
 
@@ -259,35 +269,6 @@ theorem wait_returns_ready (w : World) (h : (wait w).2 = .unit) : (wait w).1.ar.
 
 /-! ### (4) a synchronous request is an asynchronous one carrying the configured timeout -/
 
-/-- `sync_request` with configured timeout `τ` = issue the request, `set_expiry(τ)`, read `.value` — for
-every `τ`, `None` included (where `async_request` skips `set_expiry`, which is the same thing). -/
-theorem sync_is_async_plus_timeout (w : World) (τ : Option Int) :
-    syncRequest w τ = step (step (asyncRequest w none) (.setExpiry τ)).1 .qValue := by
-  cases τ with
-  | none => rfl
-  | some t => rfl
-
-/-- and `timed(proxy, τ)(…)` is `async_request(…, timeout=τ)` -/
-theorem timed_is_async_with_timeout (w : World) (τ : Option Int) : timedCall w τ = asyncRequest w τ := by
-  cases τ with
-  | none => rfl
-  | some t => rfl
-
-/-- **Every request gets its own deadline, counted from the instant it is issued** — however old the
-connection or a reused `timed` wrapper is: the fresh result of `async_request(timeout=τ)`, of a call of a
-`timed(proxy, τ)` wrapper made at any earlier time, and of `sync_request` with configured timeout `τ`
-expires at `issue instant + τ` (never for `None`/negative), is pending with an empty callback list, and
-its registry entry is live. -/
-theorem each_request_own_deadline (w : World) (τ : Option Int) :
-    (asyncRequest w τ).ar.ttl = Timeout.make w.now τ
-      ∧ (Timed.call w (Timed.make τ)).ar.ttl = Timeout.make w.now τ
-      ∧ (asyncRequest w τ).ar.isReady = false ∧ (asyncRequest w τ).ar.callbacks = []
-      ∧ (asyncRequest w τ).live = true ∧ (asyncRequest w τ).now = w.now
-      ∧ Timed.call w (Timed.make τ) = asyncRequest w τ := by
-  cases τ with
-  | none => exact ⟨rfl, rfl, rfl, rfl, rfl, rfl, rfl⟩
-  | some t => exact ⟨rfl, rfl, rfl, rfl, rfl, rfl, rfl⟩
-
 /-- so a synchronous request raises the timeout error no earlier than `τ` after it was issued, and exactly
 then unless the caller was busy serving a request -/
 theorem sync_timeout_exact (w : World) (τ : Option Int) (h : (syncRequest w τ).2 = .timeout) :
@@ -308,6 +289,61 @@ theorem sync_timeout_exact (w : World) (τ : Option Int) (h : (syncRequest w τ)
       · left; rw [d]; omega
       · right; exact d
     · simp [asyncRequest, setExpiry, Timeout.make, ht] at a
+
+/-! ### (5) several requests on one connection: independent except through the environment
+
+`MWorld` keeps one single-request world (a *view*) per request; replies carry the sequence number of their
+request.  The theorems above are about one view and quantify over *all* its event sequences, environment
+events (`tick`, `send`, `serve1`, `serveT`, `serveAt`) included. -/
+
+/-- **One connection.** In every run of a multi-request world all per-request views agree on the clock, the
+inbound channel and the busy log: the views are projections of one connection, not separate worlds. -/
+theorem requests_share_one_connection (t0 : Nat) (es : List MEv) : MAgree (mruns (MWorld.init t0) es) :=
+  mruns_agree es _ (MAgree.init t0)
+
+/-- **Independence.** Whatever happens to the other requests, the view of request `k` evolves as a
+single-request run whose events are exactly the events addressed to request `k` plus environment events —
+elapsed time, messages entering the channel, somebody serving: events of request A reach request B only that
+way (and a reply carrying another request's sequence number does nothing to B, `dispatch_foreign`). -/
+theorem other_requests_are_environment (mw : MWorld) (es : List MEv) (k : Nat) (v : World)
+    (hv : mw.views[k]? = some v) :
+    ∃ evs : List Ev, (mruns mw es).views[k]? = some (runs v evs)
+      ∧ ∀ e' ∈ evs, isEnv e' = true ∨ .on k e' ∈ es :=
+  view_after_runs es mw k v hv
+
+/-- so readiness of one request is final whatever is done with the others: waits on them, their replies
+(earlier or later ones, stale ones left over from abandoned requests), their expiry, new requests -/
+theorem multi_ready_final (mw : MWorld) (es : List MEv) (k : Nat) (v : World) (hv : mw.views[k]? = some v)
+    (hi : Inv v) (hr : v.ar.isReady = true) :
+    ∃ v', (mruns mw es).views[k]? = some v' ∧ v'.ar.isReady = true ∧ v'.ar.isExc = v.ar.isExc
+      ∧ v'.ar.obj = v.ar.obj := by
+  obtain ⟨evs, h, _⟩ := view_after_runs es mw k v hv
+  have := Frozen.runs evs (hi.frozen hr)
+  exact ⟨_, h, this.1, this.2.1, this.2.2.1⟩
+
+/-- and expiry of one request is final as long as *that* request is not re-armed: nothing done to other
+requests can revive it or run its callbacks -/
+theorem multi_expired_final (mw : MWorld) (es : List MEv) (k : Nat) (v : World) (hv : mw.views[k]? = some v)
+    (hx : status v = .expired) (hn : ∀ τ, MEv.on k (.setExpiry τ) ∉ es) :
+    ∃ v', (mruns mw es).views[k]? = some v' ∧ status v' = .expired ∧ v'.cbLog = v.cbLog := by
+  obtain ⟨evs, h, p⟩ := view_after_runs es mw k v hv
+  have hno : noRearm evs := by
+    intro ev hev τ heq
+    subst heq
+    rcases p _ hev with h1 | h1
+    · simp [isEnv] at h1
+    · exact hn τ h1
+  obtain ⟨a, b, _⟩ := expired_final v hx evs hno
+  exact ⟨_, h, a, b⟩
+
+/-- a fresh request's view: pending, own deadline, live entry, and it agrees with the connection -/
+theorem new_request_view (env : World) (n : Nat) (τ : Option Int) :
+    (newView env n τ).ar.isReady = false ∧ (newView env n τ).ar.ttl = Timeout.make env.now τ
+      ∧ (newView env n τ).live = true ∧ (newView env n τ).seq = n ∧ Inv (newView env n τ)
+      ∧ Agree (newView env n τ) env := by
+  refine ⟨rfl, rfl, rfl, rfl, ?_, newView_agree env n τ⟩
+  intro h
+  simp [newView, setExpiry, AR.init] at h
 
 /-! ### generated facts about the source (regenerated from /repo on every run) -/
 
@@ -347,32 +383,32 @@ theorem rearm_revives (w : World) (hx : status w = .expired) (τ : Option Int)
 
 /-- reply first: two callbacks before, one after; value available; log in order with instants -/
 example :
-    run (World.init 0) [.setExpiry (some 3), .addCallback 1, .addCallback 2, .send 1 (.reply false 7), .tick 1,
+    run (World.init 0) [.setExpiry (some 3), .addCallback 1, .addCallback 2, .send 1 (.reply 0 false 7), .tick 1,
                         .qReady, .addCallback 3, .tick 9, .qValue, .qExpired]
-      = (⟨10, ⟨true, some false, some 7, [], ⟨true, 3⟩⟩, false, [], [(1, 1), (2, 1), (3, 1)], some 1, []⟩,
+      = (⟨10, 0, ⟨true, some false, some 7, [], ⟨true, 3⟩⟩, false, [], [(1, 1), (2, 1), (3, 1)], some 1, []⟩,
          [.unit, .unit, .unit, .unit, .unit, .bool true, .unit, .unit, .value (some 7), .bool false]) := by
   decide +kernel
 
 /-- expiry first: wait raises exactly at the deadline; the late reply is discarded, callbacks never run -/
 example :
-    run (World.init 0) [.setExpiry (some 3), .addCallback 1, .send 5 (.reply false 7), .wait, .tick 4, .serve1,
+    run (World.init 0) [.setExpiry (some 3), .addCallback 1, .send 5 (.reply 0 false 7), .wait, .tick 4, .serve1,
                         .qReady, .qValue]
-      = (⟨7, ⟨false, none, none, [1], ⟨true, 3⟩⟩, false, [], [], none, []⟩,
+      = (⟨7, 0, ⟨false, none, none, [1], ⟨true, 3⟩⟩, false, [], [], none, []⟩,
          [.unit, .unit, .unit, .timeout, .unit, .unit, .bool false, .timeout]) := by
   decide +kernel
 
 /-- later than the deadline only by the request being served: deadline 3, a request arriving at 1 keeps the
 thread busy for 4, the timeout error is raised at 5 -/
 example :
-    (run (World.init 0) [.setExpiry (some 3), .send 1 (.other 4), .send 2 (.reply true 9), .qValue]).2
+    (run (World.init 0) [.setExpiry (some 3), .send 1 (.other 4), .send 2 (.reply 0 true 9), .qValue]).2
         = [.unit, .unit, .unit, .timeout]
-      ∧ (runs (World.init 0) [.setExpiry (some 3), .send 1 (.other 4), .send 2 (.reply true 9), .qValue]).now = 5
-      ∧ (runs (World.init 0) [.setExpiry (some 3), .send 1 (.other 4), .send 2 (.reply true 9), .qValue]).busy = [(1, 4)] := by
+      ∧ (runs (World.init 0) [.setExpiry (some 3), .send 1 (.other 4), .send 2 (.reply 0 true 9), .qValue]).now = 5
+      ∧ (runs (World.init 0) [.setExpiry (some 3), .send 1 (.other 4), .send 2 (.reply 0 true 9), .qValue]).busy = [(1, 4)] := by
   decide +kernel
 
 /-- a negative timeout is no timeout: the reply at 50 is waited for and returned (as an exception) -/
 example :
-    (run (World.init 0) [.setExpiry (some (-1)), .send 50 (.reply true 9), .qValue]).2
+    (run (World.init 0) [.setExpiry (some (-1)), .send 50 (.reply 0 true 9), .qValue]).2
       = [.unit, .unit, .raised (some 9)] := by
   decide +kernel
 
@@ -383,23 +419,33 @@ example : Reachable (runs (World.init 0) [.arrive false 1]) ∧ (runs (World.ini
 example : status (runs (World.init 0) [.setExpiry (some 2), .tick 1]) = .pending := by decide +kernel
 
 /-- a synchronous request with timeout 2 whose reply comes at 5 fails at 2; with timeout `None` it returns -/
-example : (syncRequest { World.init 0 with chan := [(5, .reply false 1)] } (some 2)).2 = .timeout
-    ∧ (syncRequest { World.init 0 with chan := [(5, .reply false 1)] } (some 2)).1.now = 2
-    ∧ (syncRequest { World.init 0 with chan := [(5, .reply false 1)] } none).2 = .value (some 1) := by
+example : (syncRequest { World.init 0 with chan := [(5, .reply 1 false 1)] } (some 2)).2 = .timeout
+    ∧ (syncRequest { World.init 0 with chan := [(5, .reply 1 false 1)] } (some 2)).1.now = 2
+    ∧ (syncRequest { World.init 0 with chan := [(5, .reply 1 false 1)] } none).2 = .value (some 1) := by
   decide +kernel
 
 /-- a `timed(…, 3)` wrapper first used 5 ticks after it was made: the call at 5 has its deadline at 8, the reply
 at 6 is returned; the second call at 10 has its deadline at 13 and times out exactly then -/
 example :
-    (Timed.call { World.init 5 with chan := [(6, .reply false 7)] } (Timed.make (some 3))).ar.ttl = ⟨true, 8⟩
-    ∧ (value (Timed.call { World.init 5 with chan := [(6, .reply false 7)] } (Timed.make (some 3)))).2 = .value (some 7)
-    ∧ (value (Timed.call { World.init 10 with chan := [(20, .reply false 7)] } (Timed.make (some 3)))).2 = .timeout
-    ∧ (value (Timed.call { World.init 10 with chan := [(20, .reply false 7)] } (Timed.make (some 3)))).1.now = 13 := by
+    (Timed.call { World.init 5 with chan := [(6, .reply 1 false 7)] } (Timed.make (some 3))).ar.ttl = ⟨true, 8⟩
+    ∧ (value (Timed.call { World.init 5 with chan := [(6, .reply 1 false 7)] } (Timed.make (some 3)))).2 = .value (some 7)
+    ∧ (value (Timed.call { World.init 10 with chan := [(20, .reply 1 false 7)] } (Timed.make (some 3)))).2 = .timeout
+    ∧ (value (Timed.call { World.init 10 with chan := [(20, .reply 1 false 7)] } (Timed.make (some 3)))).1.now = 13 := by
+  decide +kernel
+
+/-- two requests: the first (deadline 2) is abandoned, its reply comes at 5 while the second request (issued at
+3) is being waited for; the stale reply does nothing to the second request, whose own reply at 6 is returned -/
+example :
+    let mw := mruns (MWorld.init 0) [.request (some 2), .on 0 (.send 5 (.reply 1 false 11)), .on 0 .qValue,
+                                     .on 0 (.tick 1), .request none, .on 1 (.send 3 (.reply 2 false 22))]
+    (mstep mw (.on 1 .qValue)).2 = .value (some 22)
+      ∧ ((mstep mw (.on 1 .qValue)).1.views.map (fun v => (v.now, v.ar.isReady, v.ar.obj, v.live)))
+          = [(6, false, none, false), (6, true, some 22, false)] := by
   decide +kernel
 
 /-- re-arming: expired at 1, re-armed, the reply at 3 is then accepted -/
 example :
-    (run (World.init 0) [.setExpiry (some 1), .send 3 (.reply false 7), .tick 1, .qExpired, .setExpiry (some 5),
+    (run (World.init 0) [.setExpiry (some 1), .send 3 (.reply 0 false 7), .tick 1, .qExpired, .setExpiry (some 5),
                          .qExpired, .qValue]).2
       = [.unit, .unit, .unit, .bool true, .unit, .bool false, .value (some 7)] := by
   decide +kernel
